@@ -86,9 +86,9 @@ CLAIMS.update({
         technique='Lean 4 proof (corollaries of functional-correctness theorems; overflow guards by case analysis) + catch_unwind differential enumeration of byte-length x position combinations',
         design='§6 C01'),
     'C08': dict(
-        text='Lean 4 theorems: (1) no code point of an accepted enforce result is DISALLOWED/UNASSIGNED in the profile\'s own class — full strength for Nickname, OpaqueString, UsernameCasePreserved; for UsernameCaseMapped on inputs without a character whose lowercase image is forbidden, where that exceptional set is COMPUTED by the kernel from the regenerated tables (exactly the 85 Cherokee letters U+13A0..U+13F4: known finding cherokee-lowercase). Proof: a generic closure lemma for the NFC model (decompose, reorder, recompose incl. Hangul) over any set closed under the decomposition and composition tables, plus kernel-checked closure facts over bitmaps of the forbidden sets (re-checked whenever std/unicode-normalization/tables change). (2) never drifts: full strength for Nickname (fixed point); for OpaqueString, UsernameCasePreserved and (outside the Cherokee set) UsernameCaseMapped proved under the single named hypothesis that the external NFC is idempotent: the accepted result contains no character a second enforcement would map (non-ASCII Zs / wide-narrow / cased), because those sets too are closed under decomposition and composition (kernel-checked), so the second run can only return the same string or a validation error. Correspondence: EXHAUSTIVE native sweep of every scalar as a one-character input through all four profiles with re-classification and re-enforcement, plus thousands of decomposed/composing/cased sequences.',
-        note='Partial: drift for usernames/passwords assumes NFC idempotence of the external crate (hypothesis NfcIdempotent of the theorems, exercised by re-enforcement of every output). Known finding: Cherokee lowercase images are UNASSIGNED in the 6.3.0 tables.',
-        technique='Lean 4 proof (closure of the NFC model by induction over its state machine + kernel bitmap facts) + exhaustive single-code-point sweep',
+        text='Lean 4 theorems: (1) no code point of an accepted enforce result is DISALLOWED/UNASSIGNED in the profile\'s own class — full strength for Nickname, OpaqueString, UsernameCasePreserved; for UsernameCaseMapped on inputs without a character whose lowercase image is forbidden, where that exceptional set is COMPUTED by the kernel from the regenerated tables (exactly the 85 Cherokee letters U+13A0..U+13F4: known finding cherokee-lowercase). Proof: a generic closure lemma for the NFC model (decompose, reorder, recompose incl. Hangul) over any set closed under the decomposition and composition tables, plus kernel-checked closure facts over bitmaps of the forbidden sets (re-checked whenever std/unicode-normalization/tables change). (2) never drifts: full strength for Nickname (fixed point); for OpaqueString, UsernameCasePreserved and (outside the Cherokee set) UsernameCaseMapped proved WITHOUT any assumption about the normalizer: idempotence of NFC (and NFKC) is itself a theorem about the normalizer model over the tables dumped from the crate on every run (nfc_idem / nfkc_idem: induction over the recomposition state machine of the crate; the full decomposition of every composition entry is the decomposition of its first part followed by the second part, checked by the kernel through a balanced search tree built from the table); the accepted result contains no character a second enforcement would map (non-ASCII Zs / wide-narrow / cased), because those sets too are closed under decomposition and composition (kernel-checked), so the second run can only return the same string or a validation error. Correspondence: EXHAUSTIVE native sweep of every scalar as a one-character input through all four profiles with re-classification and re-enforcement, plus thousands of decomposed/composing/cased sequences.',
+        note='Partial only in that UsernameCaseMapped excludes the characterised Cherokee set (known finding: Cherokee lowercase images are UNASSIGNED in the 6.3.0 tables). No assumption about the normalizer remains (NFC/NFKC idempotence proved for the model; the model is tied to the unicode-normalization crate by table regeneration and the correspondence). Trusted: Lean kernel; normalizer model validated against the crate, not verified.',
+        technique='Lean 4 proof (closure and idempotence of the NFC model by induction over its state machine + kernel bitmap / search-tree facts over the regenerated tables) + exhaustive single-code-point sweep',
         design='§6 C08'),
     'C17': dict(
         text='Lean 4 theorems about a model of the registry CSV parser (splitn, the two anchored regexes, from_str_radix, the line iterator): every well-formed row rendered with 1-8 upper-case hex digits, any of the 7 names or 49 ordered pairs and ANY description (commas included) parses to exactly that row (completeness); anything accepted has exactly that form — hex digits only (no sign), value <= U+10FFFF, one of the names or two joined by white space-or-white space, description verbatim (soundness); fewer than two commas is an error; the header is skipped, items are in file order and an error carries its 1-based line number. Correspondence: rendered random rows and EVERY single-character deletion/replacement/insertion of seed rows through PrecisDerivedProperty::from_str, generated files through CsvLineParser::from_path.',
@@ -107,8 +107,8 @@ CLAIMS.update({
 
 CLAIMS.update({
     'C15': dict(
-        text='Lean 4 theorems about a model of the precis-tools generators (HashSet/sort/run-compression set tables incl. virama, the unassigned-gap tracker with its quirky range state, the bidi run compressor, the width table, and UnicodeData::parse First/Last folding with its completeness and soundness theorems): for EVERY well-formed list of UnicodeData rows (ascending, disjoint, any subset of code points, any placement of ranges next to singles, any run structure) each generator succeeds, the emitted table denotes exactly the code points and values the input assigns, and it is sortedTable — which by the verified binary search (C18/Bsearch) means a search finds the entry containing a code point iff one exists and no code point is covered twice. Tied to the code by running the REAL generators (through RustCodeGen/UcdFileGen/ucd-parse/the text writer) on hundreds (thorough: thousands) of synthetic well-formed UCD directories incl. 17 hand-picked run structures, parsing the emitted files back and comparing entry for entry with the model and with an independent denotation check; and by reproducing the tables of the two pinned data sets (6.3.0, 16.0.0) with the model generators. The pinned tables themselves are also kernel-compared with independently parsed UCD data in C03/C09/C11/C12/C14.',
-        note='Trusted: Lean kernel; the generator model (validated by the correspondence); ucd-parse row syntax and the file writer are inside the compared path, not the model. UcdTableGen instances for Scripts/PropList/DerivedCoreProperties/HangulSyllableType/DerivedJoiningType share the set-table code path proved here and are checked on the pinned data by the kernel facts of C03/C14.',
+        text='Lean 4 theorems about a model of the precis-tools generators (HashSet/sort/run-compression set tables incl. virama, the unassigned-gap tracker with its quirky range state, the bidi run compressor, the width table, and UnicodeData::parse First/Last folding with its completeness and soundness theorems): for EVERY well-formed list of UnicodeData rows (ascending, disjoint, any subset of code points, any placement of ranges next to singles, any run structure) each generator succeeds, the emitted table denotes exactly the code points and values the input assigns, and it is sortedTable; for the PROPERTY FILES (Scripts, DerivedJoiningType, PropList, DerivedCoreProperties, HangulSyllableType) the same holds for lines in ANY order (property_table_exact: pairwise disjoint non-empty lines suffice — UAX #44 gives line order no meaning) — which by the verified binary search (C18/Bsearch) means a search finds the entry containing a code point iff one exists and no code point is covered twice. Tied to the code by running the REAL generators (through RustCodeGen/UcdFileGen/ucd-parse/the text writer) on hundreds (thorough: thousands) of synthetic well-formed UCD directories incl. hand-picked run structures and property files whose lines are ascending, grouped-descending, interleaved or shuffled (13 script / joining-type / property / Hangul-type tables per directory), parsing the emitted files back and comparing entry for entry with the model and with an independent denotation check; and by reproducing the tables of the two pinned data sets (6.3.0, 16.0.0) with the model generators. The pinned tables themselves are also kernel-compared with independently parsed UCD data in C03/C09/C11/C12/C14.',
+        note='Trusted: Lean kernel; the generator model (validated by the correspondence); ucd-parse row syntax and the file writer are inside the compared path, not the model. The pinned property-file tables are additionally compared with independently parsed UCD data by the kernel facts of C03/C14.',
         technique='Lean 4 proof (loop invariants over the row fold for each generator) + differential correspondence with the real generators on synthetic UCD directories',
         design='§6 C15'),
 })
